@@ -141,6 +141,32 @@ fn host_of(s: &Stmt) -> Host {
             Host::Schema(SchemaHost::TableAlter(t))
         }
         Stmt::TableIndex(i) => Host::DebugOnly(format!("{:?} {:?}", i.get_column_names(), i)),
+        // postgres-only statements: rendered by the postgres builder whatever backend was asked
+        Stmt::TypeCreate(x) => Host::DebugOnly(format!(
+            "{} | {}",
+            x.to_string(PostgresQueryBuilder),
+            x.build_ref(&PostgresQueryBuilder)
+        )),
+        Stmt::TypeDrop(x) => Host::DebugOnly(format!(
+            "{} | {}",
+            x.to_string(PostgresQueryBuilder),
+            x.build_ref(&PostgresQueryBuilder)
+        )),
+        Stmt::TypeAlter(x) => Host::DebugOnly(format!(
+            "{} | {}",
+            x.to_string(PostgresQueryBuilder),
+            x.build_ref(&PostgresQueryBuilder)
+        )),
+        Stmt::ExtCreate(x) => Host::DebugOnly(format!(
+            "{} | {}",
+            x.to_string(PostgresQueryBuilder),
+            x.build_ref(&PostgresQueryBuilder)
+        )),
+        Stmt::ExtDrop(x) => Host::DebugOnly(format!(
+            "{} | {}",
+            x.to_string(PostgresQueryBuilder),
+            x.build_ref(&PostgresQueryBuilder)
+        )),
     }
 }
 
